@@ -37,6 +37,8 @@ def _history(b, upto=None):
 
 
 def _jid(j):
+    if "rr" in j:   # the string as received (lossless decomposition, see harness/rawclient.h)
+        return j["u"] + ("@" if j["at"] else "") + j["d"] + ("/" if j["sl"] else "") + j["rr"]
     return f"{j['u']}@{j['d']}/{j['r']}"
 
 
@@ -155,7 +157,8 @@ def run(chk, replay=None):
         gen = {}
         tour1, gen["tour_one_reply_both_sasl_versions"] = vf.tlc_gen("ServerGen.tla", "ServerGenTour.cfg")
         tour2, gen["tour_two_replies_sasl"] = vf.tlc_gen("ServerGen.tla", "ServerGenTour2.cfg")
-        behs = _probed(tour1 + tour2)
+        tourf, gen["tour_every_from_class_x_identity_state"] = vf.tlc_gen("ServerGen.tla", "ServerGenTourF.cfg")
+        behs = _probed(tour1 + tour2 + tourf)
         if quick:
             sim, gen["random_walks_full_alphabet"] = vf.tlc_simulate("ServerGen.tla", "ServerGenSim.cfg", num=1500, depth=12, seed=chk.seed)
             behs += sim
